@@ -112,15 +112,19 @@ class SessionRules(Harness):
         watch = _RoundWatch(g, fam == "events" and case["event"] == "halt")
         ctx = rn.make_run(g, st, menu, on_event=watch)
         sim = ctx.sim
-        ctx.declared_exec = {s.session_id: s.with_order_execution for s in sim.sessions}
+        ctx.declared_exec = {s.session_id: sd["withOrderExecution"]
+                             for s, sd in zip(sim.sessions, st["simulation"]["sessions"])}
         watch.ctx = ctx
         rho = None
         if fam == "caps" and case["rate"] == "sym":
             rho = g.real("rho", 0, 1, lo_strict=True, hi_strict=True)
             sim.sessions[0].high_frequency_submission_rate = rho
-        declared = [(s, s.with_order_placement, s.with_order_execution, s.iteration_steps,
-                     s.max_normal_orders, s.max_high_frequency_orders, s.high_frequency_submission_rate)
-                    for s in sim.sessions]
+        # what was configured (the settings written above), not what Session.setup made of it
+        declared = []
+        for s, sd in zip(sim.sessions, st["simulation"]["sessions"]):
+            declared.append((s, sd["withOrderPlacement"], sd["withOrderExecution"], sd["iterationSteps"],
+                             sd.get("maxNormalOrders", 1), sd.get("maxHighFrequencyOrders", 1),
+                             rho if rho is not None else sd.get("highFrequencySubmitRate", 1.0)))
         ctx.sim = sim
         ctx.runner._run()
         self.oracle(g, ctx, declared)
